@@ -260,7 +260,11 @@ func workerReplay(t *testing.T, a *workerArgs, out *workerOut) {
 	}
 	want := c.Viol
 	c.Viol = nil
-	res := RunCase(t, &c, false)
+	dump := os.Getenv("VERIF_DUMP_TRACE")
+	res := RunCase(t, &c, dump != "")
+	if dump != "" {
+		os.WriteFile(dump, []byte(res.Trace), 0o644)
+	}
 	out.Runs = 1
 	if res.Viol != nil {
 		c.Viol = res.Viol
